@@ -7,7 +7,7 @@ if ! git -C "$WT" apply "$P" 2>/dev/null && ! git -C "$WT" apply --3way "$P"; th
 cd /verif
 for c in "$@"; do
   VERIF_REPO="$WT" VERIF_OUT_DIR="$EV" ./check "$c" --tier ${TIER:-quick} > "$EV/$c.out" 2>&1; rc=$?
-  echo "== $c exit=$rc: $(grep -c '^VIOLATION' $EV/$c.out) violation lines; $(grep '^VIOLATION' $EV/$c.out | head -2 | cut -c1-300)"
+  echo "== $c exit=$rc: $(grep -c '^VIOLATION' $EV/$c.out) violation lines; $(grep -A1 '^VIOLATION' $EV/$c.out | head -2 | tr '\n' ' ' | cut -c1-400)"
   tail -1 "$EV/$c.out" | cut -c1-250
 done
 git -C /repo worktree remove --force "$WT"; rm -rf "$EV"
